@@ -1,6 +1,936 @@
-//! placeholder: filled in by the check that owns this sub-command
+//! `vh total ...` — C03: parsing and checking is total.
+//!
+//! Replays the cases of spec/Syntax.tla (token sequences, untyped ASTs rendered by the
+//! specification, the folding sub-suite, single-token mutations of valid programs, random walks)
+//! and seeded byte/char mutations of the corpus into `Code::parse`, `Variable::from_str` and
+//! `Type::from_str`, and classifies every run by the specification's outcome machine:
+//! `Program` or `Error`.  A panic (caught, with its location recorded by a panic hook of our
+//! own) or an abort of the worker process (observed through its exit status) is not a state of
+//! that machine.  Cases run in child processes (`vh total worker`), so that an abort or a stack
+//! overflow of the code under test is data, not a crash of the harness.
+//!
+//! The only "rendering" done here is: join the specification's tokens with one blank (token
+//! sequences also without any blank), and replace `"@kind"` inside string tokens by the path of
+//! the scratch file of that kind (imports take a string literal path).
+use crate::util::{catch, read_ndjson, Rng};
 use serde_json::{Value, json};
+use simplesl::{Code, Interpreter, variable::{Type, Variable}};
+use std::{
+    cell::RefCell,
+    collections::BTreeMap,
+    fs,
+    io::Write,
+    path::Path,
+    process::{Command, Stdio},
+    str::FromStr,
+    time::{Duration, Instant},
+};
 
-pub fn run(_args: &[String]) -> Value {
-    json!({"error": "not implemented"})
+// ------------------------------------------------------------------------------------------
+// outcome of one run
+// ------------------------------------------------------------------------------------------
+
+#[derive(Clone, Debug, PartialEq)]
+pub enum Outcome {
+    Program,
+    /// error value; the name of the `simplesl::Error` variant (or "ParseTypeError")
+    Error(String),
+    /// caught panic: location `file:line`, message
+    Panic(String, String),
+    /// the worker process died on this run: description of the exit status, classification
+    Abort(String, String),
+}
+
+impl Outcome {
+    fn code(&self) -> &'static str {
+        match self {
+            Outcome::Program => "Program",
+            Outcome::Error(_) => "Error",
+            Outcome::Panic(..) => "Panic",
+            Outcome::Abort(..) => "Abort",
+        }
+    }
+}
+
+thread_local! {
+    static PANIC_LOC: RefCell<Option<String>> = const { RefCell::new(None) };
+}
+
+/// our own panic hook: remember where the panic was raised (util::silence_panics installs an empty one)
+fn install_hook() {
+    std::panic::set_hook(Box::new(|info| {
+        let loc = info.location().map(|l| format!("{}:{}", l.file(), l.line()));
+        PANIC_LOC.with(|p| *p.borrow_mut() = loc);
+    }));
+}
+
+fn short_loc(loc: &str) -> String {
+    // /repo/src/instruction/x.rs:12 -> src/instruction/x.rs:12 ; registry crates: <crate>/src/...
+    if let Some(i) = loc.find("/src/") {
+        let head = &loc[..i];
+        let krate = head.rsplit('/').next().unwrap_or("");
+        if head.ends_with("/repo") || head == "src" || head.is_empty() {
+            return loc[i + 1..].to_string();
+        }
+        return format!("{krate}{}", &loc[i..]);
+    }
+    loc.to_string()
+}
+
+fn error_class<E: std::fmt::Debug>(e: &E) -> String {
+    let s = format!("{e:?}");
+    s.chars().take_while(|c| c.is_ascii_alphanumeric() || *c == '_').collect()
+}
+
+fn classify<T, E: std::fmt::Debug>(f: impl FnOnce() -> Result<T, E>) -> Outcome {
+    PANIC_LOC.with(|p| *p.borrow_mut() = None);
+    match catch(f) {
+        Ok(Ok(_)) => Outcome::Program,
+        Ok(Err(e)) => Outcome::Error(error_class(&e)),
+        Err(msg) => {
+            let loc = PANIC_LOC.with(|p| p.borrow_mut().take()).unwrap_or_else(|| "?".into());
+            Outcome::Panic(short_loc(&loc), msg)
+        }
+    }
+}
+
+/// api: "plain" = Code::parse against a fresh stdlib interpreter, "host" = against the
+/// interpreter that holds the specification's HostPrelude, "value" / "type" = from_str
+fn run_one(api: &str, text: &str, plain: &Interpreter, host: &Interpreter) -> Outcome {
+    match api {
+        "plain" => classify(|| Code::parse(plain, text)),
+        "host" => classify(|| Code::parse(host, text)),
+        "value" => classify(|| Variable::from_str(text)),
+        "type" => classify(|| Type::from_str(text)),
+        other => panic!("unknown api {other}"),
+    }
+}
+
+// ------------------------------------------------------------------------------------------
+// scratch files for imports, rendering of token sequences
+// ------------------------------------------------------------------------------------------
+
+const SCRATCH: &str = "/verif/work/c03_scratch";
+
+fn make_scratch() {
+    let d = Path::new(SCRATCH);
+    fs::create_dir_all(d.join("dir.sl")).unwrap();
+    fs::write(d.join("valid.sl"), "one := 1;\ninc := (v: int) -> int { return v + one }\ncell := mut 2.5\n").unwrap();
+    fs::write(d.join("invalid.sl"), "one := := 1 }").unwrap();
+    fs::write(d.join("illtyped.sl"), "one := 1 + \"s\"").unwrap();
+    fs::write(d.join("binary.sl"), [0xffu8, 0xfe, 0x00, 0xc3, 0x28]).unwrap();
+    fs::write(d.join("self.sl"), format!("import \"{SCRATCH}/self.sl\"")).unwrap();
+    let _ = fs::remove_file(d.join("missing.sl"));
+}
+
+fn subst(tok: &str) -> String {
+    if let Some(rest) = tok.strip_prefix("\"@") {
+        if let Some(kind) = rest.strip_suffix('"') {
+            return format!("\"{SCRATCH}/{kind}.sl\"");
+        }
+    }
+    tok.to_string()
+}
+
+fn toks(v: &Value) -> Vec<String> {
+    v.as_array().map(|a| a.iter().map(|t| t.as_str().unwrap().to_string()).collect()).unwrap_or_default()
+}
+
+fn join(ts: &[String], sep: &str) -> String {
+    ts.iter().map(|t| subst(t)).collect::<Vec<_>>().join(sep)
+}
+
+#[derive(Clone)]
+struct Ctx {
+    name: String,
+    pre: Vec<String>,
+    post: Vec<String>,
+}
+
+struct Contexts {
+    code: Vec<Ctx>,
+    typ: Ctx,
+    host_prelude: Vec<String>,
+    tokens: Vec<String>,
+}
+
+fn load_contexts(dir: &str) -> Contexts {
+    let rows = read_ndjson(&format!("{dir}/syntax_contexts.ndjson"));
+    let mut c = Contexts { code: vec![], typ: Ctx { name: String::new(), pre: vec![], post: vec![] }, host_prelude: vec![], tokens: vec![] };
+    for r in rows {
+        let ctx = Ctx { name: r["name"].as_str().unwrap().to_string(), pre: toks(&r["pre"]), post: toks(&r["post"]) };
+        match ctx.name.as_str() {
+            "$host_prelude" => c.host_prelude = ctx.pre,
+            "$tokens" => c.tokens = ctx.pre,
+            "type" => c.typ = ctx,
+            _ => c.code.push(ctx),
+        }
+    }
+    c.code.sort_by(|a, b| a.name.cmp(&b.name));
+    assert!(c.code.len() == 3 && !c.host_prelude.is_empty() && !c.tokens.is_empty() && c.typ.name == "type");
+    c
+}
+
+fn in_ctx(c: &Ctx, body: &str) -> String {
+    let mut s = join(&c.pre, " ");
+    if !s.is_empty() {
+        s.push(' ');
+    }
+    s.push_str(body);
+    let post = join(&c.post, " ");
+    if !post.is_empty() {
+        s.push(' ');
+        s.push_str(&post);
+    }
+    s
+}
+
+/// The runs of one case: (label, api, text).  Shared by the driver and the worker so that result
+/// lines can be matched to texts.
+fn variants(case: &Value, cx: &Contexts) -> Vec<(String, &'static str, String)> {
+    let suite = case["suite"].as_str().unwrap_or("text");
+    let ts = toks(&case["ts"]);
+    let mut out = vec![];
+    let code_ctx = |out: &mut Vec<(String, &'static str, String)>, body: &str, tag: &str| {
+        for c in &cx.code {
+            out.push((format!("{}{tag}", c.name), "host", in_ctx(c, body)));
+        }
+    };
+    match suite {
+        "tok" => {
+            let spaced = join(&ts, " ");
+            let glued = join(&ts, "");
+            code_ctx(&mut out, &spaced, "");
+            out.push(("value".into(), "value", spaced.clone()));
+            out.push(("type".into(), "type", spaced.clone()));
+            if glued != spaced {
+                code_ctx(&mut out, &glued, "/glued");
+                out.push(("value/glued".into(), "value", glued.clone()));
+                out.push(("type/glued".into(), "type", glued));
+            }
+        }
+        "ast" | "walk" => {
+            let body = join(&ts, " ");
+            code_ctx(&mut out, &body, "");
+            out.push(("value".into(), "value", body.clone()));
+            if case["sort"] == "E" {
+                out.push(("type".into(), "type", body));
+            }
+        }
+        "type" => {
+            let body = join(&ts, " ");
+            out.push(("type".into(), "type", body.clone()));
+            out.push(("param".into(), "plain", in_ctx(&cx.typ, &body)));
+            out.push(("value".into(), "value", body));
+        }
+        "fold" | "import_self" | "prog" => out.push(("plain".into(), "plain", join(&ts, " "))),
+        // mutants and corpus programs: in the context the base program was accepted in
+        "mut" => {
+            let body = join(&ts, " ");
+            match case["ctx"].as_str().unwrap_or("plain") {
+                "plain" => out.push(("plain".into(), "plain", body)),
+                name => {
+                    let c = cx.code.iter().find(|c| c.name == name).expect("context");
+                    out.push((name.to_string(), "host", in_ctx(c, &body)));
+                }
+            }
+        }
+        // raw text (corpus originals, byte mutations)
+        _ => {
+            let text = case["text"].as_str().unwrap().to_string();
+            out.push(("plain".into(), "plain", text.clone()));
+            if case["apis"] == "all" {
+                out.push(("value".into(), "value", text.clone()));
+                out.push(("type".into(), "type", text));
+            }
+        }
+    }
+    out
+}
+
+// ------------------------------------------------------------------------------------------
+// worker: one child process runs a shard of cases and appends one line per run
+// ------------------------------------------------------------------------------------------
+
+fn esc(s: &str) -> String {
+    s.replace('\\', "\\\\").replace('\t', "\\t").replace('\n', "\\n").replace('\r', "\\r")
+}
+
+fn host_interpreter(cx: &Contexts) -> Interpreter<'static> {
+    let mut host = Interpreter::with_stdlib();
+    let text = join(&cx.host_prelude, " ");
+    let code = Code::parse(&host, &text).expect("the specification's HostPrelude must parse");
+    code.exec_unscoped(&mut host).expect("the specification's HostPrelude must run");
+    host
+}
+
+/// vh total worker <ctxdir> <shard.ndjson> <results.txt> <first_case> <first_variant>
+fn worker(args: &[String]) -> Value {
+    install_hook();
+    let cx = load_contexts(&args[0]);
+    let cases = read_ndjson(&args[1]);
+    let (c0, v0): (usize, usize) = (args[3].parse().unwrap(), args[4].parse().unwrap());
+    let mut out = fs::OpenOptions::new().create(true).append(true).open(&args[2]).unwrap();
+    // the code under test runs on a thread of its own with a moderate stack: nesting is bounded by
+    // the generators, and unbounded recursion (a file importing itself) should overflow quickly
+    std::thread::scope(|s| {
+        std::thread::Builder::new()
+            .stack_size(256 << 20)
+            .spawn_scoped(s, || {
+                install_hook();
+                let plain = Interpreter::with_stdlib();
+                let host = host_interpreter(&cx);
+                for (ci, case) in cases.iter().enumerate().skip(c0) {
+                    for (vi, (_, api, text)) in variants(case, &cx).iter().enumerate() {
+                        if ci == c0 && vi < v0 {
+                            continue;
+                        }
+                        let line = match run_one(api, text, &plain, &host) {
+                            Outcome::Program => format!("{ci}\t{vi}\tP\n"),
+                            Outcome::Error(c) => format!("{ci}\t{vi}\tE\t{c}\n"),
+                            Outcome::Panic(l, m) => format!("{ci}\t{vi}\tX\t{}\t{}\n", esc(&l), esc(&m)),
+                            Outcome::Abort(..) => unreachable!(),
+                        };
+                        out.write_all(line.as_bytes()).unwrap();
+                    }
+                }
+            })
+            .unwrap()
+            .join()
+            .unwrap();
+    });
+    json!({"done": true})
+}
+
+// ------------------------------------------------------------------------------------------
+// driver: shard the cases, run the workers, restart after an abort, collect the outcomes
+// ------------------------------------------------------------------------------------------
+
+struct RunResult {
+    /// outcome per case per variant
+    outcomes: Vec<Vec<Outcome>>,
+    aborts: usize,
+    timeouts: usize,
+}
+
+const WORKERS: usize = 4;
+const MEM_KB: u64 = 10_000_000; // address space limit of a worker (includes the 1 GiB main stack)
+const STALL: Duration = Duration::from_secs(60);
+
+fn classify_abort(status: &std::process::ExitStatus, stderr: &str) -> (String, String) {
+    use std::os::unix::process::ExitStatusExt;
+    let desc = match (status.code(), status.signal()) {
+        (Some(c), _) => format!("exit status {c}"),
+        (None, Some(s)) => format!("signal {s}"),
+        _ => "unknown".into(),
+    };
+    let tail: String = stderr.lines().rev().take(3).collect::<Vec<_>>().into_iter().rev().collect::<Vec<_>>().join(" | ");
+    let class = if stderr.contains("has overflowed its stack") || status.signal() == Some(11) {
+        "resource:stack"
+    } else if stderr.contains("memory allocation of") {
+        "resource:memory"
+    } else {
+        "abort"
+    };
+    (format!("{desc}; stderr: {tail}"), class.to_string())
+}
+
+fn run_cases(name: &str, ctxdir: &str, cases: &[Value], cx: &Contexts) -> RunResult {
+    let dir = format!("/verif/work/c03_run_{name}");
+    let _ = fs::remove_dir_all(&dir);
+    fs::create_dir_all(&dir).unwrap();
+    make_scratch();
+    let exe = std::env::current_exe().unwrap();
+    let n = cases.len();
+    let nv: Vec<usize> = cases.iter().map(|c| variants(c, cx).len()).collect();
+    let mut outcomes: Vec<Vec<Outcome>> = nv.iter().map(|_| vec![]).collect();
+    // shard w holds the cases w, w + WORKERS, ...
+    let shards: Vec<Vec<usize>> = (0..WORKERS).map(|w| (w..n).step_by(WORKERS).collect()).collect();
+    let (mut aborts, mut timeouts) = (0, 0);
+    std::thread::scope(|s| {
+        let handles: Vec<_> = shards
+            .iter()
+            .enumerate()
+            .map(|(w, idxs)| {
+                let dir = dir.clone();
+                let exe = exe.clone();
+                let nv = &nv;
+                s.spawn(move || {
+                    let shard_file = format!("{dir}/shard{w}.ndjson");
+                    let mut f = std::io::BufWriter::new(fs::File::create(&shard_file).unwrap());
+                    for &i in idxs {
+                        writeln!(f, "{}", serde_json::to_string(&cases[i]).unwrap()).unwrap();
+                    }
+                    drop(f);
+                    let res_file = format!("{dir}/res{w}.txt");
+                    let mut local: Vec<Vec<Outcome>> = idxs.iter().map(|_| vec![]).collect();
+                    let (mut c0, mut v0) = (0usize, 0usize);
+                    let (mut ab, mut to) = (0usize, 0usize);
+                    let total: usize = idxs.iter().map(|&i| nv[i]).sum();
+                    let mut done = 0usize;
+                    while done < total {
+                        let _ = fs::remove_file(&res_file);
+                        let mut child = Command::new("sh")
+                            .arg("-c")
+                            .arg(format!("ulimit -v {MEM_KB}; exec \"$0\" \"$@\""))
+                            .arg(&exe)
+                            .args(["total", "worker", ctxdir, &shard_file, &res_file, &c0.to_string(), &v0.to_string()])
+                            .stdout(Stdio::null())
+                            .stderr(Stdio::piped())
+                            .spawn()
+                            .expect("spawn worker");
+                        // watchdog: the result file has to grow
+                        let (mut last_len, mut last_change) = (0u64, Instant::now());
+                        let mut timed_out = false;
+                        let status = loop {
+                            if let Some(st) = child.try_wait().unwrap() {
+                                break st;
+                            }
+                            std::thread::sleep(Duration::from_millis(20));
+                            let len = fs::metadata(&res_file).map(|m| m.len()).unwrap_or(0);
+                            if len != last_len {
+                                last_len = len;
+                                last_change = Instant::now();
+                            } else if last_change.elapsed() > STALL {
+                                let _ = child.kill();
+                                timed_out = true;
+                                break child.wait().unwrap();
+                            }
+                        };
+                        let mut stderr = String::new();
+                        if let Some(mut e) = child.stderr.take() {
+                            use std::io::Read;
+                            let _ = e.read_to_string(&mut stderr);
+                        }
+                        // read what the worker managed to write
+                        let text = fs::read_to_string(&res_file).unwrap_or_default();
+                        for line in text.lines() {
+                            let mut p = line.split('\t');
+                            let (Some(ci), Some(vi), Some(code)) = (p.next(), p.next(), p.next()) else { continue };
+                            let (Ok(ci), Ok(vi)) = (ci.parse::<usize>(), vi.parse::<usize>()) else { continue };
+                            let o = match code {
+                                "P" => Outcome::Program,
+                                "E" => Outcome::Error(p.next().unwrap_or("").to_string()),
+                                "X" => Outcome::Panic(p.next().unwrap_or("").to_string(), p.next().unwrap_or("").to_string()),
+                                _ => continue,
+                            };
+                            if local[ci].len() == vi {
+                                local[ci].push(o);
+                                done += 1;
+                            }
+                        }
+                        if done >= total {
+                            break;
+                        }
+                        // the worker died (or hung) on the first run that has no result
+                        let ci = (0..local.len()).find(|&ci| local[ci].len() < nv[idxs[ci]]).unwrap();
+                        let vi = local[ci].len();
+                        if status.success() && !timed_out {
+                            panic!("worker {w} exited normally but results are missing at case {ci}/{vi}: {stderr}");
+                        }
+                        let (desc, class) = if timed_out {
+                            to += 1;
+                            (format!("no progress for {}s, killed", STALL.as_secs()), "timeout".to_string())
+                        } else {
+                            ab += 1;
+                            classify_abort(&status, &stderr)
+                        };
+                        local[ci].push(Outcome::Abort(desc, class));
+                        done += 1;
+                        c0 = ci;
+                        v0 = vi + 1;
+                        if ab + to > 200 {
+                            panic!("too many worker deaths in shard {w}; last: {:?}", local[ci].last());
+                        }
+                    }
+                    (local, ab, to)
+                })
+            })
+            .collect();
+        for (w, h) in handles.into_iter().enumerate() {
+            let (local, ab, to) = h.join().expect("driver thread");
+            aborts += ab;
+            timeouts += to;
+            for (k, o) in local.into_iter().enumerate() {
+                outcomes[shards[w][k]] = o;
+            }
+        }
+    });
+    let _ = fs::remove_dir_all(&dir);
+    RunResult { outcomes, aborts, timeouts }
+}
+
+// ------------------------------------------------------------------------------------------
+// comparison with the specification's prediction and the report
+// ------------------------------------------------------------------------------------------
+
+struct Report {
+    cases: u64,
+    runs: u64,
+    by_outcome: BTreeMap<String, u64>,
+    by_suite: BTreeMap<String, BTreeMap<String, u64>>,
+    error_classes: BTreeMap<String, u64>,
+    /// distinct defects: key = location (panic) or kind; value = (count, shortest example)
+    defects: BTreeMap<String, (u64, Value)>,
+    resource: Vec<Value>,
+    accepted_nontrivial: u64,
+    samples: Vec<Value>,
+}
+
+impl Report {
+    fn new() -> Self {
+        Report { cases: 0, runs: 0, by_outcome: BTreeMap::new(), by_suite: BTreeMap::new(), error_classes: BTreeMap::new(),
+                 defects: BTreeMap::new(), resource: vec![], accepted_nontrivial: 0, samples: vec![] }
+    }
+
+    fn defect(&mut self, key: String, example: Value) {
+        let len = example["text"].as_str().map_or(usize::MAX, str::len);
+        let e = self.defects.entry(key).or_insert((0, example.clone()));
+        e.0 += 1;
+        if len < e.1["text"].as_str().map_or(usize::MAX, str::len) {
+            e.1 = example;
+        }
+    }
+
+    /// compare one case's runs with the prediction (`expect`) of the specification
+    fn judge(&mut self, case: &Value, cx: &Contexts, outs: &[Outcome]) {
+        let suite = case["suite"].as_str().unwrap_or("text").to_string();
+        let expect = case["expect"].as_str().unwrap_or("any");
+        self.cases += 1;
+        let vars = variants(case, cx);
+        for ((label, api, text), o) in vars.iter().zip(outs) {
+            self.runs += 1;
+            *self.by_outcome.entry(o.code().into()).or_insert(0) += 1;
+            *self.by_suite.entry(suite.clone()).or_default().entry(o.code().into()).or_insert(0) += 1;
+            if let Outcome::Error(c) = o {
+                *self.error_classes.entry(c.clone()).or_insert(0) += 1;
+            }
+            // the prediction is about Code::parse; the value / type grammars only have to be total
+            let expect = if *api == "value" || *api == "type" { "any" } else { expect };
+            let ctx = json!({"suite": suite, "variant": label, "api": api, "text": text, "expect": expect,
+                             "form": case["form"], "ws": case["ws"], "name": case["name"], "mutation": case["mutation"]});
+            match o {
+                Outcome::Panic(loc, msg) => {
+                    let mut ex = ctx.clone();
+                    ex["kind"] = json!("panic");
+                    ex["location"] = json!(loc);
+                    ex["message"] = json!(msg);
+                    self.defect(format!("panic@{loc}"), ex);
+                }
+                Outcome::Abort(desc, class) => {
+                    let mut ex = ctx.clone();
+                    ex["status"] = json!(desc);
+                    ex["class"] = json!(class);
+                    if class.starts_with("resource:") || class == "timeout" {
+                        // stack / memory exhaustion is outside the claim: reported, not failed
+                        if self.resource.len() < 40 {
+                            self.resource.push(ex);
+                        }
+                    } else {
+                        ex["kind"] = json!("abort");
+                        self.defect(format!("abort:{}", desc.split(';').next().unwrap_or("")), ex);
+                    }
+                }
+                Outcome::Program => {
+                    if *api != "value" && *api != "type" && suite != "tok" {
+                        self.accepted_nontrivial += 1;
+                    }
+                    if expect.starts_with("Error") {
+                        let mut ex = ctx.clone();
+                        ex["kind"] = json!("accepted_but_error_predicted");
+                        self.defect(format!("predicted {expect}, got Program [{}]", case["ws"]), ex);
+                    }
+                }
+                Outcome::Error(c) => {
+                    if expect == "Program" {
+                        let mut ex = ctx.clone();
+                        ex["kind"] = json!("rejected_but_program_predicted");
+                        ex["class"] = json!(c);
+                        self.defect(format!("predicted Program, got Error:{c} [{}]", case["name"]), ex);
+                    } else if let Some(want) = expect.strip_prefix("Error:") {
+                        if want != c {
+                            let mut ex = ctx.clone();
+                            ex["kind"] = json!("wrong_error_class");
+                            ex["class"] = json!(c);
+                            self.defect(format!("predicted {expect}, got Error:{c} [{}]", case["ws"]), ex);
+                        }
+                    }
+                }
+            }
+        }
+        if self.samples.len() < 4 && self.cases % 997 == 1 {
+            if let (Some((label, _, text)), Some(o)) = (vars.first(), outs.first()) {
+                self.samples.push(json!({"suite": suite, "variant": label, "text": text, "spec_admits": expect, "observed": o.code()}));
+            }
+        }
+    }
+
+    fn json(&self) -> Value {
+        json!({
+            "cases": self.cases, "runs": self.runs, "by_outcome": self.by_outcome, "by_suite": self.by_suite,
+            "error_classes": self.error_classes, "accepted_programs": self.accepted_nontrivial,
+            "defects": self.defects.iter().map(|(k, (n, ex))| json!({"key": k, "count": n, "example": ex})).collect::<Vec<_>>(),
+            "resource_exhaustion": self.resource, "samples": self.samples,
+        })
+    }
+}
+
+fn run_and_judge(name: &str, ctxdir: &str, cases: &[Value], cx: &Contexts) -> (Report, RunResult) {
+    let rr = run_cases(name, ctxdir, cases, cx);
+    let mut rep = Report::new();
+    for (case, outs) in cases.iter().zip(&rr.outcomes) {
+        rep.judge(case, cx, outs);
+    }
+    (rep, rr)
+}
+
+fn finish(rep: &Report, rr: &RunResult, extra: Value) -> Value {
+    let mut v = rep.json();
+    v["worker_aborts"] = json!(rr.aborts);
+    v["worker_timeouts"] = json!(rr.timeouts);
+    if let Some(m) = extra.as_object() {
+        for (k, x) in m {
+            v[k] = x.clone();
+        }
+    }
+    v
+}
+
+// ------------------------------------------------------------------------------------------
+// a lexer of our own for corpus programs (the mutation operators work on token sequences)
+// ------------------------------------------------------------------------------------------
+
+const MULTI: &[&str] = &["<<=", ">>=", "**=", "$&&", "$||", ":=", "=>", "->", "==", "!=", "<=", ">=", "&&", "||", "<<",
+    ">>", "**", "+=", "-=", "*=", "/=", "%=", "&=", "|=", "^=", "$+", "$*", "$&", "$|", "$]", "()"];
+
+pub fn lex(src: &str) -> Vec<String> {
+    let cs: Vec<char> = src.chars().collect();
+    let mut out: Vec<String> = vec![];
+    let mut i = 0;
+    let at = |i: usize| cs.get(i).copied().unwrap_or('\0');
+    while i < cs.len() {
+        let c = cs[i];
+        if c.is_whitespace() {
+            i += 1;
+        } else if c == '/' && at(i + 1) == '/' {
+            while i < cs.len() && cs[i] != '\n' {
+                i += 1;
+            }
+        } else if c == '/' && at(i + 1) == '*' {
+            i += 2;
+            while i < cs.len() && !(cs[i] == '*' && at(i + 1) == '/') {
+                i += 1;
+            }
+            i = (i + 2).min(cs.len());
+        } else if c == '"' {
+            let s = i;
+            i += 1;
+            while i < cs.len() && cs[i] != '"' {
+                i += if cs[i] == '\\' { 2 } else { 1 };
+            }
+            i = (i + 1).min(cs.len());
+            out.push(cs[s..i].iter().collect());
+        } else if c.is_ascii_digit() {
+            let s = i;
+            if c == '0' && matches!(at(i + 1), 'x' | 'b' | 'o') {
+                i += 2;
+                while at(i).is_ascii_alphanumeric() || at(i) == '_' {
+                    i += 1;
+                }
+            } else {
+                while at(i).is_ascii_digit() || at(i) == '_' {
+                    i += 1;
+                }
+                let after_dot = out.last().is_some_and(|t| t == ".");
+                if !after_dot && at(i) == '.' && at(i + 1).is_ascii_digit() {
+                    i += 1;
+                    while at(i).is_ascii_digit() || at(i) == '_' {
+                        i += 1;
+                    }
+                }
+                if !after_dot && matches!(at(i), 'e' | 'E') {
+                    let mut j = i + 1;
+                    if matches!(at(j), '+' | '-') {
+                        j += 1;
+                    }
+                    while at(j) == '_' {
+                        j += 1;
+                    }
+                    if at(j).is_ascii_digit() {
+                        i = j;
+                        while at(i).is_ascii_digit() || at(i) == '_' {
+                            i += 1;
+                        }
+                    }
+                }
+            }
+            out.push(cs[s..i].iter().collect());
+        } else if c.is_alphabetic() || c == '_' {
+            let s = i;
+            while at(i).is_alphanumeric() || at(i) == '_' {
+                i += 1;
+            }
+            out.push(cs[s..i].iter().collect());
+        } else {
+            let rest: String = cs[i..(i + 3).min(cs.len())].iter().collect();
+            if let Some(m) = MULTI.iter().find(|m| rest.starts_with(**m)) {
+                out.push((*m).to_string());
+                i += m.chars().count();
+            } else {
+                out.push(c.to_string());
+                i += 1;
+            }
+        }
+    }
+    out
+}
+
+fn corpus_files(dir: &str) -> Vec<(String, String)> {
+    let mut v: Vec<(String, String)> = fs::read_dir(dir)
+        .unwrap_or_else(|e| panic!("corpus {dir}: {e}"))
+        .filter_map(|e| e.ok())
+        .filter(|e| e.path().is_file())
+        .map(|e| (e.file_name().to_string_lossy().to_string(), fs::read_to_string(e.path()).unwrap()))
+        .collect();
+    v.sort();
+    v
+}
+
+// ------------------------------------------------------------------------------------------
+// sub-commands
+// ------------------------------------------------------------------------------------------
+
+/// vh total gen <dir> <max_accepted>: replay syntax_{tok,ast,fold}.ndjson; write <dir>/accepted.ndjson
+fn gen_cmd(args: &[String]) -> Value {
+    let dir = &args[0];
+    let max_acc: usize = args.get(1).and_then(|s| s.parse().ok()).unwrap_or(300);
+    let cx = load_contexts(dir);
+    let mut cases = vec![];
+    for f in ["syntax_fold", "syntax_ast", "syntax_tok", "syntax_walk"] {
+        let p = format!("{dir}/{f}.ndjson");
+        if Path::new(&p).exists() {
+            cases.extend(read_ndjson(&p));
+        }
+    }
+    let (rep, rr) = run_and_judge("gen", dir, &cases, &cx);
+    // accepted programs of suite (b): one per form first, then a seeded sample of the rest
+    let mut rng = Rng::from_env(0xC03);
+    let mut first: BTreeMap<String, Value> = BTreeMap::new();
+    let mut rest: Vec<Value> = vec![];
+    let mut forms_seen: BTreeMap<String, [u64; 2]> = BTreeMap::new();
+    for (case, outs) in cases.iter().zip(&rr.outcomes) {
+        if case["suite"] != "ast" {
+            continue;
+        }
+        let form = case["form"].as_str().unwrap_or("").to_string();
+        let vars = variants(case, &cx);
+        let any_ok = vars.iter().zip(outs).any(|((_, api, _), o)| *api == "host" && *o == Outcome::Program);
+        let e = forms_seen.entry(form.clone()).or_insert([0, 0]);
+        e[0] += 1;
+        e[1] += any_ok as u64;
+        for ((label, api, _), o) in vars.iter().zip(outs) {
+            if *api == "host" && *o == Outcome::Program {
+                let row = json!({"suite": "mut", "ctx": label, "ts": case["ts"], "form": form, "expect": "Program"});
+                let key = form.clone();
+                if !first.contains_key(&key) {
+                    first.insert(key, row);
+                } else {
+                    rest.push(row);
+                }
+            }
+        }
+    }
+    let mut acc: Vec<Value> = first.into_values().collect();
+    while acc.len() < max_acc && !rest.is_empty() {
+        let i = rng.below(rest.len());
+        acc.push(rest.swap_remove(i));
+    }
+    acc.truncate(max_acc.max(1));
+    let mut f = std::io::BufWriter::new(fs::File::create(format!("{dir}/accepted.ndjson")).unwrap());
+    for r in &acc {
+        writeln!(f, "{}", serde_json::to_string(r).unwrap()).unwrap();
+    }
+    let never_accepted: Vec<&String> = forms_seen.iter().filter(|(_, v)| v[1] == 0).map(|(k, _)| k).collect();
+    finish(&rep, &rr, json!({"accepted_written": acc.len(), "forms": forms_seen.len(),
+        "forms_never_accepted": never_accepted}))
+}
+
+/// vh total corpus <corpus_dir> <dir>: originals and re-joined token sequences must be programs;
+/// writes <dir>/mut_in.ndjson = tokenised corpus + <dir>/accepted.ndjson (input of MC_SyntaxMut)
+fn corpus(args: &[String]) -> Value {
+    let (cdir, dir) = (&args[0], &args[1]);
+    let max_tokens: usize = args.get(2).and_then(|s| s.parse().ok()).unwrap_or(400);
+    let cx = load_contexts(dir);
+    let files = corpus_files(cdir);
+    let mut cases = vec![];
+    let mut rows = vec![];
+    for (name, text) in &files {
+        cases.push(json!({"suite": "text", "name": name, "text": text, "apis": "all", "expect": "Program"}));
+        let ts = lex(text);
+        cases.push(json!({"suite": "prog", "name": format!("{name} (tokens re-joined)"), "ts": ts, "expect": "Program"}));
+        if ts.len() <= max_tokens && !ts.is_empty() {
+            rows.push(json!({"suite": "mut", "ctx": "plain", "ts": ts, "name": name, "expect": "Program"}));
+        }
+    }
+    let (rep, rr) = run_and_judge("corpus", dir, &cases, &cx);
+    let acc = format!("{dir}/accepted.ndjson");
+    if Path::new(&acc).exists() {
+        rows.extend(read_ndjson(&acc));
+    }
+    let mut f = std::io::BufWriter::new(fs::File::create(format!("{dir}/mut_in.ndjson")).unwrap());
+    for (i, r) in rows.iter().enumerate() {
+        let mut r = r.clone();
+        r["id"] = json!(i + 1);
+        writeln!(f, "{}", serde_json::to_string(&r).unwrap()).unwrap();
+    }
+    let positions: usize = rows.iter().map(|r| r["ts"].as_array().unwrap().len()).sum();
+    finish(&rep, &rr, json!({"corpus_files": files.len(), "bases": rows.len(), "positions": positions}))
+}
+
+fn apply_mutation(ts: &[String], op: &str, p: usize, t: &str) -> Vec<String> {
+    let mut r = ts.to_vec();
+    match op {
+        "del" => {
+            r.remove(p - 1);
+        }
+        "dup" => r.insert(p - 1, ts[p - 1].clone()),
+        "rep" => r[p - 1] = t.to_string(),
+        other => panic!("unknown mutation {other}"),
+    }
+    r
+}
+
+/// vh total mut <dir>: apply the specification's mutations (syntax_mut.ndjson: i, op, p, t, and for
+/// a sample the specification's own result r) to the bases of mut_in.ndjson and run them
+fn mutate(args: &[String]) -> Value {
+    let dir = &args[0];
+    let cx = load_contexts(dir);
+    let bases = read_ndjson(&format!("{dir}/mut_in.ndjson"));
+    let muts = read_ndjson(&format!("{dir}/syntax_mut.ndjson"));
+    let mut cases = Vec::with_capacity(muts.len());
+    let (mut cross, mut cross_bad) = (0u64, vec![]);
+    let mut per_op: BTreeMap<String, u64> = BTreeMap::new();
+    for m in &muts {
+        let i = m["i"].as_u64().unwrap() as usize;
+        let base = &bases[i - 1];
+        let ts = toks(&base["ts"]);
+        let (op, p, t) = (m["op"].as_str().unwrap(), m["p"].as_u64().unwrap() as usize, m["t"].as_str().unwrap_or(""));
+        let r = apply_mutation(&ts, op, p, t);
+        *per_op.entry(op.to_string()).or_insert(0) += 1;
+        if m.get("r").is_some_and(|r| r.is_array()) {
+            cross += 1;
+            if toks(&m["r"]) != r && cross_bad.len() < 5 {
+                cross_bad.push(json!({"mutation": m, "harness": r}));
+            }
+        }
+        cases.push(json!({"suite": "mut", "ctx": base["ctx"], "ts": r, "name": base["name"], "form": base["form"],
+                          "mutation": {"base": i, "op": op, "p": p, "t": t}, "expect": "any"}));
+    }
+    let (rep, rr) = run_and_judge("mut", dir, &cases, &cx);
+    finish(&rep, &rr, json!({"mutants": cases.len(), "per_op": per_op, "cross_checked_against_spec": cross,
+                             "cross_check_mismatches": cross_bad}))
+}
+
+/// vh total bytes <corpus_dir> <dir> <per_file>: seeded random byte / char mutations of corpus programs
+fn bytes(args: &[String]) -> Value {
+    let (cdir, dir) = (&args[0], &args[1]);
+    let per_file: usize = args.get(2).and_then(|s| s.parse().ok()).unwrap_or(200);
+    let cx = load_contexts(dir);
+    let mut rng = Rng::from_env(0xB17E5);
+    let odd: Vec<char> = vec!['\0', '\u{1}', '\u{7f}', '\t', '\r', '\n', '\u{b}', '\u{85}', '\u{a0}', 'é', 'ß', 'ł', '→', '∀',
+        '\u{200b}', '\u{2028}', '\u{feff}', '😀', '𝔘', '\u{10ffff}', '"', '\\', '\'', '`', '#', '$', '@', '~', '?', '!', '|', '&',
+        '{', '}', '(', ')', '[', ']', ';', ':', ',', '.', '=', '<', '>', '+', '-', '*', '/', '%', '^', '0', '9', '_', 'e', 'x'];
+    let mut cases = vec![];
+    for (name, text) in corpus_files(cdir) {
+        let chars: Vec<char> = text.chars().collect();
+        if chars.is_empty() {
+            continue;
+        }
+        for k in 0..per_file {
+            let mut c = chars.clone();
+            let edits = 1 + rng.below(3);
+            let mut what = vec![];
+            for _ in 0..edits {
+                if c.is_empty() {
+                    break;
+                }
+                let p = rng.below(c.len());
+                match rng.below(6) {
+                    0 => {
+                        c.remove(p);
+                        what.push(format!("del@{p}"));
+                    }
+                    1 => {
+                        let x = *rng.pick(&odd);
+                        c.insert(p, x);
+                        what.push(format!("ins@{p}:{:?}", x));
+                    }
+                    2 => {
+                        let x = *rng.pick(&odd);
+                        c[p] = x;
+                        what.push(format!("rep@{p}:{:?}", x));
+                    }
+                    3 => {
+                        // byte-level: flip one bit of the UTF-8 encoding; keep the text valid UTF-8 (lossy)
+                        let mut b: Vec<u8> = c.iter().collect::<String>().into_bytes();
+                        let q = rng.below(b.len());
+                        b[q] ^= 1 << rng.below(8);
+                        c = String::from_utf8_lossy(&b).chars().collect();
+                        what.push(format!("bitflip@byte{q}"));
+                    }
+                    4 => {
+                        let q = rng.below(c.len());
+                        c.swap(p, q);
+                        what.push(format!("swap@{p},{q}"));
+                    }
+                    _ => {
+                        c.truncate(p);
+                        what.push(format!("truncate@{p}"));
+                    }
+                }
+            }
+            let t: String = c.into_iter().collect();
+            cases.push(json!({"suite": "text", "name": format!("{name}#{k}"), "text": t, "apis": if k % 8 == 0 { "all" } else { "code" },
+                              "mutation": what, "expect": "any"}));
+        }
+    }
+    let (rep, rr) = run_and_judge("bytes", dir, &cases, &cx);
+    finish(&rep, &rr, json!({"byte_mutants": cases.len()}))
+}
+
+/// vh total one <api> <text>: one run in-process, for reproducing a finding by hand
+fn one(args: &[String]) -> Value {
+    install_hook();
+    make_scratch();
+    let plain = Interpreter::with_stdlib();
+    let text = if args[1] == "-" { std::io::read_to_string(std::io::stdin()).unwrap() } else { args[1].clone() };
+    let o = if args[0] == "host" {
+        let cx = load_contexts(&args[2]);
+        let host = host_interpreter(&cx);
+        run_one("host", &text, &plain, &host)
+    } else {
+        run_one(&args[0], &text, &plain, &plain)
+    };
+    json!({"outcome": o.code(), "detail": format!("{o:?}")})
+}
+
+/// vh total lex <file>: the token sequence of a file (debugging aid)
+fn lex_cmd(args: &[String]) -> Value {
+    json!(lex(&fs::read_to_string(&args[0]).unwrap()))
+}
+
+pub fn run(args: &[String]) -> Value {
+    let Some(cmd) = args.first() else {
+        return json!({"error": "usage: vh total gen|corpus|mut|bytes|one|lex|worker ..."});
+    };
+    match cmd.as_str() {
+        "worker" => worker(&args[1..]),
+        "gen" => gen_cmd(&args[1..]),
+        "corpus" => corpus(&args[1..]),
+        "mut" => mutate(&args[1..]),
+        "bytes" => bytes(&args[1..]),
+        "one" => one(&args[1..]),
+        "lex" => lex_cmd(&args[1..]),
+        other => json!({"error": format!("unknown sub-command {other}")}),
+    }
 }
